@@ -9,6 +9,7 @@ EXPLANATION = (
     "every re-boxed node are each moved out / dropped exactly once, a recycled node's old pair is consumed exactly once, a MaybeUninit field "
     "is never overwritten while still initialised; plus who-may-call on forget/leak APIs and purge/Drop reaching every retained list. "
     "Allocator-level live-block counts are a runtime observation and are not decided; panics are C18's subject."
+    " R7: Drop::drop of a list frees both sentinel blocks on every path and the drained nodes (engine of C03.R5)."
 )
 TRUSTED_BASE = ["as C03", "K/V values moved out of MaybeUninit into typed locals are dropped by rustc's drop elaboration (only forget-like APIs can lose them: R3)"]
 
